@@ -462,8 +462,20 @@ func validateMessage(msgAtt, serviceAtt *AttributeExpr, e *GRPCEndpointExpr, req
 }
 
 // validateRPCTags verifies whether every attribute in the object type has
-// "rpc:tag" set in the meta and the tag numbers are unique.
+// "rpc:tag" set in the meta and the tag numbers are unique. The object user
+// types the attributes refer to become messages too and are verified as well.
 func validateRPCTags(fields *Object, e *GRPCEndpointExpr) *eval.ValidationErrors {
+	verr := validateObjectRPCTags(fields, e)
+	walk(fields, func(ut UserType) {
+		if obj := AsObject(ut); obj != nil {
+			verr.Merge(validateObjectRPCTags(obj, e))
+		}
+	})
+	return verr
+}
+
+// validateObjectRPCTags verifies the attributes of one object (one message).
+func validateObjectRPCTags(fields *Object, e *GRPCEndpointExpr) *eval.ValidationErrors {
 	verr := new(eval.ValidationErrors)
 	foundRPC := make(map[uint64]string)
 	// the alternatives of a union become fields of the enclosing message: they
